@@ -1525,6 +1525,12 @@ func runReader(sc *streamScenario, rec *recorder, level int) {
 			add(sz, false, rd, nil, "full")
 		}
 	}
+	// reads that return no byte and no error (io.Reader allows them) between small reads: more than a hundred per packet, never many in a row
+	for j, zs := range [][]int{{1, 0}, {0, 0, 3}, {2, 0}, {0, 1}} {
+		add([]int{188, 192, 204}[j%3], false, "chunk", zs, fmt.Sprintf("emptyreads%d", j))
+		add([]int{188, 192}[j%2], true, "chunkseek", zs, fmt.Sprintf("emptyreads%d", j))
+		add(204, false, "chunkseek", zs, fmt.Sprintf("emptyreads%d", j))
+	}
 	for _, bsz := range []int{16, 64, 100, 187, 188, 200, 203, 204} {
 		add([]int{188, 192, 204}[bsz%3], false, "bufiosmall", []int{bsz}, fmt.Sprintf("buffer%d", bsz))
 	}
